@@ -34,11 +34,14 @@ RPow(x, n)  == IF n = 0 THEN <<1, 1>> ELSE RMul(x, RPow(x, n - 1))
 RECURSIVE Pow2(_)
 Pow2(n)     == IF n = 0 THEN 1 ELSE 2 * Pow2(n - 1)
 
-(* smallest e in -40..40 with |x| <= 2^e (magnitude exponent) *)
+(* smallest e >= -30 with |x| <= 2^e (magnitude exponent), without overflow *)
+RECURSIVE MagUp(_, _)
+MagUp(a, e)   == IF a[1] <= a[2] * Pow2(e) THEN e ELSE MagUp(a, e + 1)
+RECURSIVE MagDown(_, _)
+MagDown(a, k) == IF k >= 30 \/ a[1] * Pow2(k + 1) > a[2] THEN -k ELSE MagDown(a, k + 1)
 MagExp(x) ==
-  LET a == RAbs(x)
-      S == {e \in -40..30 : IF e >= 0 THEN a[1] <= a[2] * Pow2(e) ELSE a[1] * Pow2(-e) <= a[2]}
-  IN IF S = {} THEN 31 ELSE CHOOSE e \in S : \A f \in S : e <= f
+  LET a == RAbs(x) IN
+  IF a[1] = 0 THEN -30 ELSE IF a[1] > a[2] THEN MagUp(a, 1) ELSE MagDown(a, 0)
 
 (* decimal text of a rational whose denominator divides 1000 *)
 Pad3(n) == IF n < 10 THEN "00" \o ToString(n) ELSE IF n < 100 THEN "0" \o ToString(n) ELSE ToString(n)
